@@ -114,6 +114,9 @@ func (k *KDC) serveTCP() {
 					io.Copy(io.Discard, c) // until the proxy closes
 					c.Close()
 				}
+			case "wrap-prefix": // a length prefix just below 2^32 (4+n wraps around in 32 bits), connection kept open
+				c.Write([]byte{0xff, 0xff, 0xff, 0xfe, 0x6b})
+				io.Copy(io.Discard, c)
 			case "oversized": // announces a reply far beyond any Kerberos message and keeps the connection open
 				c.Write([]byte{0x00, 0x02, 0x00, 0x01, 0x6b, 0x81})
 				io.Copy(io.Discard, c)
